@@ -1,5 +1,5 @@
 """C05 - warm starts and regularisation paths solve the problem they are asked; buffer = Xw + b."""
-from .solver_common import run_parallel
+from .solver_common import run_parallel, run_bbox
 
 LEAN_MODULES = ["Skglm.Properties.C05"]
 
@@ -11,6 +11,7 @@ def run(ctx, rep):
                 "converged point held to the certificate of its own alpha; every transition of the traced runs is checked "
                 "against the model; non-trivial = at least one outer iteration")
     run_parallel(ctx, rep, oracles=["buffer", "cert", "path"], gen_opts=dict(warm=True), n_quick=14, n_thorough=200)
+    run_bbox(ctx, rep, oracles=["buffer", "cert"], solvers_=["ProxNewton", "GroupBCD", "GroupProxNewton", "MultiTaskBCD"])
 
 
 def replay(ctx, payload):
